@@ -11,8 +11,9 @@ Both the compiled driver (`Drv/Http.lean`, which runs it against the real server
 * `detail = true` (the C16 runs): outcomes are computed by the executable ADF models, except the node
   table of HYBRID parsing (`BdAdf::from_parser(..).hybrid_step_opt(false)`, biodivine's diagrams
   converted to the library's), which has no executable model here: it is adopted from the
-  implementation (`Oracle.hyb`) after the specification check `storedAdfOK`; the theorems therefore
-  carry the hypothesis `SrvA.Denotes` for an adopted table (exactly what that check establishes).
+  implementation (`Oracle.hyb`) after the specification check `storedAdfOK'` (`ServerAdf.lean`), which
+  IMPLIES `SrvA.Denotes` (`ServerHybrid.lean`: `storedAdfOK'_denotes`); the same file models the arm
+  itself (`parseHybrid` over a lawful biodivine library, `SrvC.hybEnv`) and proves `Denotes` for it.
 * `detail = false` (the C17 runs): outcomes are opaque classes taken from the oracle.
 
 Core + Std only (the driver links this file). -/
